@@ -301,17 +301,17 @@ Proof. intros. destruct o; cbn; repeat split; lia. Qed.
 
 (** invariant relating the function-level environment [fs] of the original program, the map [m]
     and the value list [tv] of the transformed program *)
-Definition Inv (fs : list XF) (m : list (nat * nat)) (tv : list ExtendedR) : Prop :=
+Definition TInv (fs : list XF) (m : list (nat * nat)) (tv : list ExtendedR) : Prop :=
   length m = length fs /\
   forall i, i < length fs ->
     fst (nth i m (0, 0)) < length tv /\ snd (nth i m (0, 0)) < length tv /\
     Rep (nth i fs dflt) (getb tv (fst (nth i m (0, 0)))) (getb tv (snd (nth i m (0, 0)))).
 
-Lemma Inv_push fs m tv vals (F : XF) rv rt :
-  Inv fs m tv ->
+Lemma TInv_push fs m tv vals (F : XF) rv rt :
+  TInv fs m tv ->
   ref_ok (length tv) (length vals) rv -> ref_ok (length tv) (length vals) rt ->
   Rep F (rget tv vals rv) (rget tv vals rt) ->
-  Inv (F :: fs) ((absr (length tv) rv, absr (length tv) rt) :: m) (rev vals ++ tv).
+  TInv (F :: fs) ((absr (length tv) rv, absr (length tv) rt) :: m) (rev vals ++ tv).
 Proof.
   intros [Hl H] Hrv Hrt HF. split; [cbn; now rewrite Hl|].
   intros [|i] Hi; cbn [nth fst snd].
@@ -326,10 +326,10 @@ Proof.
 Qed.
 
 Lemma tan_step fs m tv t :
-  Inv fs m tv ->
+  TInv fs m tv ->
   wscoped [t] (length fs) = true ->
   let '(blk, rv, rt) := dblock t m in
-  Inv (eval_generic_body dflt fun_ops fs t) ((absr (length tv) rv, absr (length tv) rt) :: m)
+  TInv (eval_generic_body dflt fun_ops fs t) ((absr (length tv) rv, absr (length tv) rt) :: m)
       (fold_left (eval_generic_body Xnan ext_operations) (lower (length tv) 0 blk) tv)
   /\ length (fold_left (eval_generic_body Xnan ext_operations) (lower (length tv) 0 blk) tv) = length tv + length blk.
 Proof.
@@ -337,7 +337,7 @@ Proof.
   destruct t as [u|o u|o u v]; cbn [dblock].
   - (* Forward *) apply Nat.ltb_lt in Hs. destruct (H u Hs) as (Ha & Hb & HR).
     cbn [lower fold_left length]. split; [|lia].
-    apply (Inv_push fs m tv [] (nth u fs dflt)); cbn; auto.
+    apply (TInv_push fs m tv [] (nth u fs dflt)); cbn; auto.
   - apply Nat.ltb_lt in Hs. destruct (H u Hs) as (Ha & Hb & HR).
     pose proof (dblock_un_ok o _ _ (length tv) Ha Hb) as Hok.
     pose proof (dblock_un_sound o _ _ tv _ HR) as Hsd.
@@ -345,7 +345,7 @@ Proof.
     destruct Hok as (Hb1 & Hb2 & Hb3).
     pose proof (lower_correct tv blk [] Hb1) as E. cbn [rev app length] in E. rewrite E.
     split; [|rewrite app_length, rev_length, aeval_length; cbn; lia].
-    apply (Inv_push fs m tv (aeval tv [] blk) (fun t => unary ext_operations o (nth u fs dflt t)));
+    apply (TInv_push fs m tv (aeval tv [] blk) (fun t => unary ext_operations o (nth u fs dflt t)));
       rewrite ?aeval_length; cbn [length plus]; auto.
   - apply andb_prop in Hs as [Hs1 Hs2]. apply Nat.ltb_lt in Hs1, Hs2.
     destruct (H u Hs1) as (Ha & Hb & HR). destruct (H v Hs2) as (Ha' & Hb' & HR').
@@ -355,14 +355,14 @@ Proof.
     destruct Hok as (Hb1 & Hb2 & Hb3).
     pose proof (lower_correct tv blk [] Hb1) as E. cbn [rev app length] in E. rewrite E.
     split; [|rewrite app_length, rev_length, aeval_length; cbn; lia].
-    apply (Inv_push fs m tv (aeval tv [] blk) (fun t => binary ext_operations o (nth u fs dflt t) (nth v fs dflt t)));
+    apply (TInv_push fs m tv (aeval tv [] blk) (fun t => binary ext_operations o (nth u fs dflt t) (nth v fs dflt t)));
       rewrite ?aeval_length; cbn [length plus]; auto.
 Qed.
 
 Lemma tan_aux_sound P : forall fs m tv,
-  Inv fs m tv -> wscoped P (length fs) = true ->
+  TInv fs m tv -> wscoped P (length fs) = true ->
   let '(Q, mf) := tan_aux P m (length tv) in
-  Inv (eval_fun P fs) mf (eval_ext Q tv).
+  TInv (eval_fun P fs) mf (eval_ext Q tv).
 Proof.
   induction P as [|t P IH]; intros fs m tv HI Hs; cbn [tan_aux].
   - exact HI.
@@ -392,10 +392,10 @@ Qed.
 Lemma init_map_length n : length (init_map n) = n.
 Proof. unfold init_map. now rewrite map_length, seq_length. Qed.
 
-Lemma Inv_init t0 n (xs : list XF) (dx : list ExtendedR) :
+Lemma TInv_init t0 n (xs : list XF) (dx : list ExtendedR) :
   length xs = n -> length dx = n ->
   (forall j, j < n -> Xderive_pt (nth j xs dflt) t0 (nth j dx Xnan)) ->
-  Inv t0 xs (init_map n) (map (fun f : XF => f t0) xs ++ dx).
+  TInv t0 xs (init_map n) (map (fun f : XF => f t0) xs ++ dx).
 Proof.
   intros Hx Hd H. split; [now rewrite init_map_length|].
   intros i Hi. rewrite Hx in Hi. rewrite init_map_nth by exact Hi. cbn [fst snd].
@@ -437,7 +437,7 @@ Theorem tan_prog_sound P n (xs : list XF) (dx : list ExtendedR) t0 :
     Xderive_pt (fun t => nth k (eval_ext P (map (fun f : XF => f t) xs)) Xnan) t0 (getb tv (snd (nth k mf (0, 0)))).
 Proof.
   intros Hx Hd Hs H. unfold tan_prog.
-  pose proof (tan_aux_sound t0 P xs (init_map n) _ (Inv_init t0 n xs dx Hx Hd H)) as HS.
+  pose proof (tan_aux_sound t0 P xs (init_map n) _ (TInv_init t0 n xs dx Hx Hd H)) as HS.
   assert (Hs' : wscoped P (length xs) = true) by now rewrite Hx.
   specialize (HS Hs').
   rewrite app_length, map_length, Hx, Hd in HS. replace (n + n) with (2 * n) in HS by lia.
